@@ -19,6 +19,7 @@ from synced_collections.backends.collection_json import (
     JSONAttrDict,
     json_attr_dict_validator,
 )
+from synced_collections.data_types import SyncedCollection
 from synced_collections.errors import KeyTypeError
 from synced_collections.utils import SyncedCollectionJSONEncoder
 
@@ -595,6 +596,11 @@ class Job:
             The job document handle.
 
         """
+        if isinstance(new_doc, SyncedCollection):
+            # Resolve to plain data before resetting. Assigning a document
+            # handle to itself (job.doc = job.doc) would otherwise iterate over
+            # its own not yet loaded data and overwrite the file with {}.
+            new_doc = new_doc()
         self.document.reset(new_doc)
 
     @property
